@@ -36,7 +36,11 @@ def syncConn (old : S) (x : SR) : SR :=
 
 /-- body of the `for _ in range(max_packets)` loop of `loop_read` -/
 def loopReadIter : (fuel : Nat) → SR → (reconnectOk : Bool) → SR × S.HRes
-  | 0, x, _ => (x, .rc rcSuccess)
+  | 0, x, _ =>
+    -- packet budget used up: NO_CONN if the last packet handled closed the connection
+    (match x.s.sock with
+     | none => (x, .rc rcNoConn)
+     | some _ => (x, .rc rcSuccess))
   | fuel + 1, x, ok =>
     match x.s.sock with
     | none => (x, .rc rcNoConn)
